@@ -2,10 +2,10 @@ package main
 
 import (
 	"encoding/json"
-	"os/exec"
 	"flag"
 	"fmt"
 	"os"
+	"os/exec"
 	"path/filepath"
 	"sort"
 	"strings"
@@ -344,21 +344,21 @@ func runProperty(spec *PropSpec, repo, tier string, writeEvidence bool) int {
 		"violations":  len(violations),
 		"assumptions": assumptions,
 		"coverage": map[string]interface{}{
-			"obligations":               nObl,
-			"discharged":                nDis,
-			"checker_cmd":               fmt.Sprintf("/verif/bin/ergoverify check --tier %s %s  (per obligation: z3-new | z3 | cvc5 on the generated SMT-LIB, first definite answer; thorough: all must agree)", tier, spec.ID),
-			"trusted_base":              trustedList,
-			"functions_under_contract":  funcsUnder,
-			"inlined_leaf_helpers":      sortedBoolKeys(inlined),
-			"per_obligation":            evid,
-			"solver_time_s":             solverTime,
-			"known_findings_matched":    known,
-			"vacuity_cover":             vacuity,
-			"samples":                   samples,
-			"technique":                 spec.Technique,
-			"explanation":               "every obligation is a verification condition generated from the go/ssa form of the function in /repo's working tree; discharged means the negated VC is unsat",
-			"bounded":                   boundedRuns,
-			"per_function_obligations":  perFuncCount,
+			"obligations":              nObl,
+			"discharged":               nDis,
+			"checker_cmd":              fmt.Sprintf("/verif/bin/ergoverify check --tier %s %s  (per obligation: z3-new | z3 | cvc5 on the generated SMT-LIB, first definite answer; thorough: all must agree)", tier, spec.ID),
+			"trusted_base":             trustedList,
+			"functions_under_contract": funcsUnder,
+			"inlined_leaf_helpers":     sortedBoolKeys(inlined),
+			"per_obligation":           evid,
+			"solver_time_s":            solverTime,
+			"known_findings_matched":   known,
+			"vacuity_cover":            vacuity,
+			"samples":                  samples,
+			"technique":                spec.Technique,
+			"explanation":              "every obligation is a verification condition generated from the go/ssa form of the function in /repo's working tree; discharged means the negated VC is unsat",
+			"bounded":                  boundedRuns,
+			"per_function_obligations": perFuncCount,
 		},
 	}
 	if writeEvidence {
